@@ -1358,10 +1358,23 @@ def r5_safe_variants(ctx) -> None:
                 else:
                     r.violation("C16.R6", q, short(c, 90), "templates are rendered in an environment that only blocks underscore attributes: the live pipeline object in the template context exposes from_dict/from_yaml, so `{% set p = pipeline.from_dict({... 'vars': '/x/evil.py'}, allow_template_vars=True) %}` in a pipeline document executes a vars file (or a command placeholder a shell command) with default arguments", loc)
     if sb is not None:
-        isc = sb.methods.get("is_safe_callable")
-        srct = unparse(isc.node) if isc else ""
-        denies = isc is not None and "__module__" in srct and "startswith('sigma.')" in srct.replace('"', "'") and any(isinstance(x, ast.Return) and isinstance(x.value, ast.Constant) and x.value.value is False for x in ast.walk(isc.node))
-        delegates = "super().is_safe_callable(obj)" in srct
+        # is_safe_callable interpreted (sa.tabulate, Proxy) on objects of the library and of other modules, with a stand-in
+        # for the stock sandbox it extends
+        import types as _types6
+        from ..tabulate import Proxy as _P6b, call_method as _cm6b, Raised as _R6b
+        denies = delegates = False
+        if "is_safe_callable" in sb.methods:
+            asked6: list = []
+            env6b = {"super": lambda: _types6.SimpleNamespace(is_safe_callable=lambda o_: (asked6.append(o_), "STOCK-ANSWER")[1])}
+            outs6 = {}
+            for mod6 in ("sigma", "sigma.processing.pipeline", "sigma.rule.rule", "sigmafoo", "builtins", "jinja2.utils", None, 5):
+                obj6 = _types6.SimpleNamespace(__module__=mod6)
+                try:
+                    outs6[mod6] = _cm6b(prog, sb.qual, "is_safe_callable", _P6b(prog, sb.qual, env6b, {}, interp_kwargs={"max_steps": 2000}), env6b, obj6, interp_kwargs={"max_steps": 2000})
+                except _R6b as ex:
+                    outs6[mod6] = f"raises {ex}"
+            denies = all(outs6[m_] is False for m_ in ("sigma", "sigma.processing.pipeline", "sigma.rule.rule"))
+            delegates = all(outs6[m_] in (True, "STOCK-ANSWER") for m_ in ("sigmafoo", "builtins", "jinja2.utils", None, 5)) and len(asked6) == 5
         if denies and delegates:
             r.ok("C16.R6", sb.qual, "is_safe_callable: objects defined in sigma.* are not callable, everything else as in the stock sandbox", f"{sb.module.relpath}:{sb.node.lineno}")
         else:
